@@ -33,11 +33,17 @@ THEOREMS = [
     "Scenic.C04.isPlanarBox_sound",
     "Scenic.C04.objectIntersects_correct",
     "Scenic.C04.min_dist_sign",
-    "Scenic.C04.intersects_fallback_origin_witness",
+    "Scenic.C04.volumeMinimumDistance_correct",
+    "Scenic.C04.isConvexFlag_sound",
+    "Scenic.C04.circumradius_bounds",
     "Scenic.Solid.intersects_correct",
     "Scenic.Solid.containsObject_correct",
     "Scenic.Solid.planar_box_iff",
     "Scenic.Solid.planar_gap",
+    "Scenic.Solid.volumeMinimumDistance_correct",
+    "Scenic.Solid.circumradius_bounds",
+    "Scenic.Solid.rigid_preserves_distSq",
+    "Scenic.Solid.rigid_radius_transfers",
     "Scenic.SolidLemmas.spheres_apart_disjoint",
     "Scenic.SolidLemmas.inballs_overlap_intersect",
     "Scenic.SolidLemmas.ball_chain_subset",
@@ -74,7 +80,9 @@ SIDE = [
     "Scenic.C04.gen_planar_sound",
     "Scenic.C04.gen_obj_sound",
     "Scenic.C04.gen_dist_sound",
-    "Scenic.C04.gen_fallback_center_cases",
+    "Scenic.C04.gen_voldist_sound",
+    "Scenic.C04.gen_convex_sound",
+    "Scenic.C04.gen_fallback_center",
 ]
 MODULES = ["ScenicModel.Props.C04", "ScenicModel.Props.C04Tree", "ScenicModel.Props.C04Planar", "ScenicModel.Props.C04Geo"]
 
@@ -94,6 +102,9 @@ FINGERPRINTS = {
     "MeshVolumeRegion._interiorPointRadii": (R, "MeshVolumeRegion._interiorPointRadii"),
     "MeshVolumeRegion._bodyCount": (R, "MeshVolumeRegion._bodyCount"),
     "MeshVolumeRegion._fclData": (R, "MeshVolumeRegion._fclData"),
+    "MeshVolumeRegion._fclDistanceData": (R, "MeshVolumeRegion._fclDistanceData"),
+    "MeshVolumeRegion.union": (R, "MeshVolumeRegion.union"),
+    "MeshRegion.__init__": (R, "MeshRegion.__init__"),
     "MeshVolumeRegion.isConvex": (R, "MeshVolumeRegion.isConvex"),
     "MeshVolumeRegion.num_samples": (R, "MeshVolumeRegion.num_samples"),
     "MeshRegion.mesh": (R, "MeshRegion.mesh"),
@@ -684,13 +695,20 @@ def centred_pieces(name):
     return how, [(vsub(c, mid), h) for c, h in pieces], ext
 
 
+def spec_offset(spec):
+    """mesh-frame offset of a region built with centerMesh=False (mode region_offcenter); zero otherwise"""
+    return tuple(fr(t) for t in spec.get("offset", (0, 0, 0)))
+
+
 def spec_pieces(spec):
-    """-> list of (centre, half extents) in the solid's own frame (bounding-box centre at the origin)"""
+    """-> list of (centre, half extents) in the solid's own frame (bounding-box centre at the origin, plus the
+    mesh-frame offset of an off-centre region)"""
+    off = spec_offset(spec)
     if spec["shape"] == "box" or spec["shape"] in ROUND:
-        return [((Fr(0), Fr(0), Fr(0)), tuple(fr(t) for t in spec["half"]))]
+        return [(off, tuple(fr(t) for t in spec["half"]))]
     _, pieces, _ = centred_pieces(spec["shape"])
     s = fr(spec.get("scale", 1))
-    return [(vscale(s, c), vscale(s, h)) for c, h in pieces]
+    return [(vadd(off, vscale(s, c)), vscale(s, h)) for c, h in pieces]
 
 
 _UNIT = {}
@@ -712,7 +730,8 @@ def exact_solid(spec):
     if spec["shape"] in ROUND:
         _, verts, faces = unit_mesh(spec["shape"])
         dims = [2 * fr(t) for t in spec["half"]]
-        return [XHull([vadd(pos, mat_vec(rows, (v[0] * dims[0], v[1] * dims[1], v[2] * dims[2]))) for v in verts], faces)]
+        off = spec_offset(spec)
+        return [XHull([vadd(pos, mat_vec(rows, vadd(off, (v[0] * dims[0], v[1] * dims[1], v[2] * dims[2])))) for v in verts], faces)]
     return [XBox(vadd(pos, mat_vec(rows, c)), u, h) for c, h in spec_pieces(spec)]
 
 
@@ -722,12 +741,14 @@ def is_convex_spec(spec):
 
 def spec_json(spec):
     return {"shape": spec["shape"], "half": [str(fr(t)) for t in spec.get("half", [])], "scale": str(fr(spec.get("scale", 1))),
-            "pos": [str(fr(t)) for t in spec["pos"]], "quat": [int(t) for t in spec["quat"]], "mode": spec["mode"]}
+            "pos": [str(fr(t)) for t in spec["pos"]], "quat": [int(t) for t in spec["quat"]], "mode": spec["mode"],
+            "offset": [str(t) for t in spec_offset(spec)]}
 
 
 def spec_from_json(j):
     return {"shape": j["shape"], "half": [Fr(t) for t in j.get("half", [])], "scale": Fr(j.get("scale", "1")),
-            "pos": [Fr(t) for t in j["pos"]], "quat": tuple(j["quat"]), "mode": j["mode"]}
+            "pos": [Fr(t) for t in j["pos"]], "quat": tuple(j["quat"]), "mode": j["mode"],
+            "offset": [Fr(t) for t in j.get("offset", ["0", "0", "0"])]}
 
 
 # =========================================================================== real Scenic objects
@@ -801,6 +822,16 @@ class Real:
                                           position=self.vec.Vector(*[float(t) for t in wc]), rotation=ori)
                 reg = piece if reg is None else reg.union(piece)
             return reg, reg
+        if spec["mode"] == "region_offcenter":
+            # a plain MeshVolumeRegion whose mesh is NOT centred on `position` (centerMesh=False): the solid is
+            # position + R(mesh), the mesh lying `offset` away from the origin of its own frame
+            if spec["shape"] == "box":
+                mesh = self.trimesh.creation.box((w, l, h))
+            else:
+                mesh = self.compound_mesh(spec["shape"], fr(spec.get("scale", 1))).copy()
+            mesh.apply_translation([float(t) for t in spec_offset(spec)])
+            reg = self.rg.MeshVolumeRegion(mesh, position=pos, rotation=ori, centerMesh=False)
+            return reg, reg
         if spec["mode"] in ("region", "region_union"):
             if spec["shape"] == "box":
                 reg = self.rg.BoxRegion(dimensions=(w, l, h), position=pos, rotation=ori)
@@ -832,9 +863,12 @@ class Trace:
     def __enter__(self):
         r = self.real
         MV = r.rg.MeshVolumeRegion
-        self.saved = (r.fcl.collide, MV._containsPointExact, MV.intersect, MV.difference, r.trimesh.sample.volume_mesh)
+        PQ = r.trimesh.proximity.ProximityQuery
+        self.saved = (r.fcl.collide, MV._containsPointExact, MV.intersect, MV.difference, r.trimesh.sample.volume_mesh,
+                      MV.containsPoint, PQ.signed_distance)
         log = self.log
-        oc, ocp, oi, od, ovm = self.saved
+        oc, ocp, oi, od, ovm, ocpt, osd = self.saved
+        depth = [0]      # > 0 while inside MeshVolumeRegion.containsPoint (its own signed-distance query is not an observation)
 
         def collide(a, b, *args, **kw):
             res = oc(a, b, *args, **kw)
@@ -861,21 +895,84 @@ class Trace:
             log.append(("sample", id(mesh), [list(map(float, p)) for p in res[:1]]))
             return res
 
+        def contains_point(self_, point, *a, **kw):
+            depth[0] += 1
+            try:
+                res = ocpt(self_, point, *a, **kw)
+            finally:
+                depth[0] -= 1
+            log.append(("containsPoint", id(self_), tuple(float(t) for t in point), bool(res)))
+            return res
+
+        def signed_distance(self_, points):
+            res = osd(self_, points)
+            if depth[0] == 0:
+                log.append(("sd", id(self_._mesh), len(points), [float(t) for t in res]))
+            return res
+
         r.fcl.collide = collide
         MV._containsPointExact = cpe
         MV.intersect = intersect
         MV.difference = difference
         r.trimesh.sample.volume_mesh = volume_mesh
+        MV.containsPoint = contains_point
+        PQ.signed_distance = signed_distance
         return self
 
     def __exit__(self, *exc):
         r = self.real
         MV = r.rg.MeshVolumeRegion
-        r.fcl.collide, MV._containsPointExact, MV.intersect, MV.difference, r.trimesh.sample.volume_mesh = self.saved
+        (r.fcl.collide, MV._containsPointExact, MV.intersect, MV.difference, r.trimesh.sample.volume_mesh,
+         MV.containsPoint, r.trimesh.proximity.ProximityQuery.signed_distance) = self.saved
         return False
 
     def names(self):
         return [e[0] for e in self.log]
+
+
+class DistTrace:
+    """records what `MeshVolumeRegion.minimumDistanceTo` reads: the value of fcl.distance, the kind of the two
+    FCL geometries it was given, and the answer of the nested-volume test `self.intersects(other)` if evaluated"""
+
+    def __init__(self, real):
+        self.real = real
+        self.fcl_dist = None
+        self.geoms = None
+        self.intersects = None
+
+    def __enter__(self):
+        r = self.real
+        MV = r.rg.MeshVolumeRegion
+        self.saved = (r.fcl.distance, MV.intersects, r.fcl.CollisionObject)
+        od, oi, oco = self.saved
+        kinds = {}
+
+        def collision_object(geom, *a, **kw):
+            obj = oco(geom, *a, **kw)
+            kinds[id(obj)] = type(geom).__name__
+            self._keep = getattr(self, "_keep", []) + [obj]
+            return obj
+
+        def distance(a, b, *args, **kw):
+            res = od(a, b, *args, **kw)
+            if self.fcl_dist is None:
+                self.fcl_dist = float(res)
+                self.geoms = (kinds.get(id(a), "?"), kinds.get(id(b), "?"))
+            return res
+
+        def intersects(self_, other, *a, **kw):
+            res = oi(self_, other, *a, **kw)
+            if self.intersects is None:
+                self.intersects = bool(res)
+            return res
+
+        r.fcl.distance, MV.intersects, r.fcl.CollisionObject = distance, intersects, collision_object
+        return self
+
+    def __exit__(self, *exc):
+        r = self.real
+        r.fcl.distance, r.rg.MeshVolumeRegion.intersects, r.fcl.CollisionObject = self.saved
+        return False
 
 
 def b01(b):
@@ -949,42 +1046,61 @@ def isect_exit_class(names):
 
 
 def contain_obs(real, reg, obj, trace_log):
-    """what `MeshVolumeRegion.containsObject` reads (recomputed through the same trimesh calls)"""
-    np, trimesh = real.np, real.trimesh
+    """what `MeshVolumeRegion.containsObject` read during the traced call: point-containment answers and signed
+    distances are taken from the trace (trimesh's inside test draws random ray directions on degenerate meshes, so
+    recomputing them could observe something else); vertex radii are recomputed through the same numpy expressions"""
+    np = real.np
     space = obj.occupiedSpace
     o = {}
     ba, bb = reg.mesh.bounds, space.mesh.bounds
     o["bbOverlap"] = all(ba[0, d] <= bb[1, d] and bb[0, d] <= ba[1, d] for d in range(3))
     o["convex"] = bool(reg.isConvex)
-    o.update(minCornerSd=0.0, minVertexSd=0.0, candAvail=False, regionHasCand=False, objCirc=0.0, sdCand=0.0,
+    o.update(minCornerSd=0.0, minVertexSd=0.0, candAvail=False, regionHasCand=None, objCirc=0.0, sdCand=0.0,
              regCandAvail=False, regCirc=0.0, objMaxDist=0.0, diffEmpty=None)
     if not o["bbOverlap"]:
         return o
-    pq = trimesh.proximity.ProximityQuery(reg.mesh)
+    sds = [e for e in trace_log if e[0] == "sd" and e[1] == id(reg.mesh)]
     if o["convex"]:
-        o["minCornerSd"] = float(np.min(pq.signed_distance(obj.boundingBox.mesh.vertices)))
-        o["minVertexSd"] = float(np.min(pq.signed_distance(space.mesh.vertices)))
+        if not sds or sds[0][2] != len(obj.boundingBox.mesh.vertices):
+            return None
+        o["minCornerSd"] = min(sds[0][3])
+        if len(sds) > 1:
+            o["minVertexSd"] = min(sds[1][3])
         return o
     samples = [e for e in trace_log if e[0] == "sample"]
+    cps = [e for e in trace_log if e[0] == "containsPoint"]
+    pos = tuple(float(t) for t in obj.position)
+    own = [e for e in cps if e[1] == id(space) and e[2] == pos]
+    if not own:
+        return None
     cand = None
-    if obj.containsPoint(obj.position):
+    if own[0][3]:
         cand = obj.position
     else:
         s = [e for e in samples if e[1] == id(space.mesh)]
         if s and s[0][2]:
             cand = real.vec.Vector(*s[0][2][0])
         elif not s:
-            return None  # the real run stopped before pass 3; cannot happen here
+            return None
+    regcps = [e for e in cps if e[1] == id(reg)]
     if cand is not None:
         o["candAvail"] = True
-        o["regionHasCand"] = bool(reg.containsPoint(cand))
+        ct = tuple(float(t) for t in cand)
+        hit = [e for e in regcps if e[2] == ct]
+        if not hit:
+            return None
+        o["regionHasCand"] = hit[0][3]
+        regcps.remove(hit[0])
         o["objCirc"] = float(np.max(np.linalg.norm(space.mesh.vertices - np.array(cand), axis=1)))
-        o["sdCand"] = float(pq.signed_distance([np.array(cand)])[0])
+        one = [e for e in sds if e[2] == 1]
+        o["sdCand"] = one[0][3][0] if one else 0.0
     com = real.vec.Vector(*reg.mesh.bounding_box.center_mass)
+    comt = tuple(float(t) for t in com)
+    hit = [e for e in regcps if e[2] == comt]
     rc = None
-    if reg.containsPoint(com):
+    if hit and hit[0][3]:
         rc = com
-    else:
+    elif hit:
         s = [e for e in samples if e[1] == id(reg.mesh)]
         if s and s[0][2]:
             rc = real.vec.Vector(*s[0][2][0])
@@ -1021,6 +1137,8 @@ def rand_spec(rng, family, mode=None):
         shape = rng.choice(["cylinder", "cylinder", "cone", "cone", "spheroid"])
     if family in ("compound", "nonconvex_container"):
         shape = rng.choice(GENERATED_COMPOUNDS)
+        if mode == "region_union" and rng.random() < 0.3:
+            shape = "lshape_touching"     # a composition of two boxes that exactly touch
     quat = rng.choice(QUATS_YAW if family in ("planar", "axis") else QUATS_GENERIC + QUATS_YAW[:2])
     if family == "axis":
         quat = (1, 0, 0, 0)
@@ -1066,8 +1184,34 @@ def place_with_gap(rng, sa, sb):
     return sb, gap
 
 
+OFFSETS = [Fr(0), Fr(2), Fr(-2), Fr(5), Fr(-5), Fr(8), Fr(-8)]
+
+
+def offcentre(rng, spec):
+    """the same solid written as a region whose mesh is not centred on `position` (centerMesh=False):
+    position' = position + R t, mesh-frame offset = -t"""
+    t = tuple(rng.choice(OFFSETS) for _ in range(3))
+    if not any(t):
+        t = (Fr(5), Fr(0), Fr(-2))
+    rows = quat_matrix(spec["quat"])
+    spec = dict(spec, mode="region_offcenter")
+    spec["pos"] = list(vadd(tuple(fr(x) for x in spec["pos"]), mat_vec(rows, t)))
+    spec["offset"] = [-x for x in t]
+    return spec
+
+
 def gen_pair(rng, family, real=None):
-    """-> (specA, specB, tag)"""
+    """-> (specA, specB, tag); plain regions are, a third of the time, rewritten as off-centre regions
+    (same solid, `position` away from the mesh) after the pair has been placed"""
+    sa, sb, tag = gen_pair0(rng, family, real)
+    if sa["mode"] == "region" and sa["shape"] not in ROUND and rng.random() < 0.35:
+        sa = offcentre(rng, sa)
+    if sb["mode"] == "region" and sb["shape"] not in ROUND and rng.random() < 0.35:
+        sb = offcentre(rng, sb)
+    return sa, sb, tag
+
+
+def gen_pair0(rng, family, real=None):
     modes = ["object", "object", "object_noscale", "region"]
     if family == "planar":
         sa, sb = rand_spec(rng, "planar"), rand_spec(rng, "planar")
@@ -1106,7 +1250,8 @@ def gen_pair(rng, family, real=None):
             sb = rand_spec(rng, "generic", rng.choice(modes))
             sb["half"] = [rng.choice([Fr(1, 16), Fr(1, 8), Fr(1, 4)]) * fr(sa["scale"]) for _ in range(3)]
             rows = quat_matrix(sa["quat"])
-            local = {"twobody": (0, 0, 0), "threebody": (Fr(3, 4), 0, Fr(-3, 4)), "lshape": (Fr(1, 2), Fr(1, 2), 0), "ushape": (0, Fr(1, 2), 0)}[sa["shape"]]
+            local = {"twobody": (0, 0, 0), "threebody": (Fr(3, 4), 0, Fr(-3, 4)), "lshape": (Fr(1, 2), Fr(1, 2), 0),
+                     "lshape_touching": (Fr(1, 2), Fr(1, 2), 0), "ushape": (0, Fr(1, 2), 0)}[sa["shape"]]
             local = vscale(fr(sa["scale"]), tuple(fr(t) for t in local))
             sb["pos"] = list(vadd(tuple(fr(t) for t in sa["pos"]), mat_vec(rows, local)))
             return sa, sb, "compound:hole"
@@ -1218,7 +1363,7 @@ FAMILIES = ["generic", "generic", "generic", "axis", "planar", "planar", "nested
 
 
 # =========================================================================== contracts of the observations (exact)
-def check_observation_contracts(ctx, real, tag, spec, thing, region, solid, viol):
+def check_observation_contracts(ctx, real, tag, spec, thing, region, solid, viol, lean_jobs):
     """`_circumradius` is an upper bound about `position`; the interior point is interior with the stated inradius;
     body count and convexity flags are those of the constructed shape."""
     np = real.np
@@ -1232,6 +1377,7 @@ def check_observation_contracts(ctx, real, tag, spec, thing, region, solid, viol
         viol("circumradius-not-upper-bound:" + ("fallback" if spec["mode"].startswith("region") else spec["mode"]),
              f"_circumradius={float(r)} is smaller than the farthest vertex from position ({math.sqrt(float(far2))})")
     ctx.hist("contract", "circumradius-upper-bound")
+    precomputed_correspondence(ctx, real, region, lean_jobs)
     if not composed and int(region._bodyCount) != (len(solid) if COMPOUNDS.get(spec["shape"], ("", 0))[0] == "concat" else 1):
         viol("bodycount:" + spec["shape"], f"_bodyCount={region._bodyCount} for shape {spec['shape']}")
     if bool(region.isConvex) != is_convex_spec(spec):
@@ -1280,8 +1426,111 @@ def check_observation_contracts(ctx, real, tag, spec, thing, region, solid, viol
             break
 
 
+# =========================================================================== precomputed geometry: model vs code
+def vlist(verts):
+    return f"{len(verts)} " + " ".join(frf(t) for v in verts for t in v)
+
+
+def precomputed_correspondence(ctx, real, region, lean_jobs):
+    """(C) `_circumradius` through the branch the real region takes, in exact arithmetic on the exact values of its
+    float vertices, against the float the real code returns; `isConvex` of the model on what the real property reads."""
+    np = real.np
+    if region._scaledShape:
+        sv = region._scaledShape.mesh.vertices
+        line, branch = "circsq scaled " + vlist(sv), "scaled"
+    elif region._shape:
+        dims = region.dimensions or region._mesh.extents
+        uv = region._shape.mesh.vertices
+        line, branch = "circsq shape " + " ".join(frf(t) for t in dims) + " " + vlist(uv), "shape"
+    else:
+        line, branch = "circsq fallback " + " ".join(frf(t) for t in region.position) + " " + vlist(region.mesh.vertices), "fallback"
+    got = float(region._circumradius)
+
+    def after_circ(outs, got=got, branch=branch):
+        ctx.hist("circumradius_branch", branch)
+        if outs[0] == "bad-op":
+            ctx.broken("correspondence", "circumradius line rejected by the driver", branch)
+            return
+        want = math.sqrt(float(Fr(outs[0])))
+        if abs(want - got) > 1e-9 * max(1.0, want):
+            ctx.broken("correspondence", "three-branch _circumradius model vs MeshVolumeRegion._circumradius",
+                       f"branch {branch}: lean sqrt={want} python={got}")
+    lean_jobs.append(([line], after_circ))
+    if type(region) is real.rg.MeshVolumeRegion:      # BoxRegion / SpheroidRegion override isConvex
+        ov = region._isConvex
+        if ov is None:
+            m = region.mesh
+            cl = "convex none " + " ".join([b01(bool(m.is_convex)), frf(m.volume), frf(m.convex_hull.volume)])
+        else:
+            cl = "convex " + b01(bool(ov)) + " 0 0/1 0/1"
+        flag = bool(region.isConvex)
+
+        def after_cvx(outs, flag=flag, cl=cl):
+            ctx.hist("isconvex_path", ("override" if " none " not in cl else "computed") + ":" + outs[0])
+            if (outs[0] == "1") != flag:
+                ctx.broken("correspondence", "isConvex model vs MeshVolumeRegion.isConvex", f"{cl}: lean={outs[0]} python={flag}")
+        lean_jobs.append(([cl], after_cvx))
+
+
+# =========================================================================== minimum distance
+def check_distance(ctx, real, level, d, dt, fast, pd, planar, ov, SA, SB, regA, regB, tag, lean_jobs, viol, composed=False):
+    """(C) the compiled model of Object / MeshVolumeRegion.minimumDistanceTo on what the real call read;
+    (S) the reported distance against the oracle: never positive on overlap, the certified gap otherwise"""
+    fd = dt.fcl_dist if dt.fcl_dist is not None else 0.0
+    if not fast and dt.fcl_dist is None:
+        ctx.broken("correspondence", "minimumDistanceTo did not call fcl.distance off the planar fast path", tag)
+        return
+    fills = [dt.intersects] if (dt.intersects is not None or fast) else [False, True]
+    if level == "object":
+        pa, pb, za, zb = planar
+        lines = ["mdist " + " ".join([b01(pa), b01(pb), frf(za), frf(zb), frf(pd), frf(fd), b01(bool(f))]) for f in fills]
+    else:
+        lines = ["vmdist " + " ".join([frf(fd), b01(bool(f))]) for f in fills]
+
+    def after(outs, d=d, fast=fast, lines=lines, nested=dt.intersects):
+        if len(set(outs)) != 1:
+            ctx.broken("correspondence", "minimumDistanceTo model depends on `intersects`, which the real code did not evaluate",
+                       f"{lines} -> {outs}")
+            return
+        v, path = outs[0].split()
+        ctx.hist("distance_path", f"{level}:{path}")
+        # the real code evaluates `self.intersects(other)` only inside the nested-volume guard
+        want = "fast" if fast else "nested" if nested is True else "fcl"
+        if path != want or Fr(v) != Fr(d):
+            ctx.broken("correspondence", "minimumDistanceTo model vs the real minimumDistanceTo",
+                       f"{lines[0]}: lean={outs[0]} python={d} fcl.distance={dt.fcl_dist} intersects={nested} fast={fast}")
+    lean_jobs.append((lines, after))
+    geoms = dt.geoms or ("-", "-")
+    if not fast:
+        ctx.hist("distance_geometry", "/".join(geoms))
+    gname = "planar" if fast else "fcl:" + ("bvh" if set(geoms) <= {"BVHModel"} else "gjk")
+    if level == "region" and composed:
+        # PARKED (see notes/design/C04.md, next steps): the property speaks of distances between objects; on composed
+        # regions (single-precision mesh booleans) the region-level distance is only tied to the model (C), not yet
+        # compared with the oracle
+        ctx.hist("distance_oracle_skipped", "composed-region")
+        return
+    if ov.kind == "YES" and d > DIST_TOL:   # a rounding-level positive value (1e-16) counts as zero
+        cvx = "convex" if regA.isConvex and regB.isConvex else "nonconvex"
+        touch = bool(real.fcl.collide(real.fcl.CollisionObject(*regA._fclData), real.fcl.CollisionObject(*regB._fclData)))
+        viol(f"distance-positive-on-overlap:{level}:" + ("planar" if fast else "fcl") + f":{cvx}:" + ("crossing" if touch else "nested"),
+             f"minimumDistanceTo = {d} > 0 for overlapping solids ({tag}; {cvx}, surfaces {'cross' if touch else 'do not touch: one solid is nested in the other'})", "distance")
+    if ov.kind == "NO":
+        if any(isinstance(X, XHull) for X in SA + SB):
+            lo2, hi2, dl = distance_bounds_hull(real, SA, SB, regA, regB)
+        else:
+            lo2, hi2, dl = distance_bounds(SA, SB)
+        lean_jobs.append((dl, certificate_job(ctx, "distance bounds")))
+        lo, hi = math.sqrt(float(lo2)), math.sqrt(float(hi2))
+        ctx.hist("distance_bound_width", "tight" if hi - lo < 1e-6 else "loose")
+        if d <= 0 or d < lo - DIST_TOL or d > hi + DIST_TOL:
+            how = "nonpositive" if d <= 0 else "under" if d < lo else "over"
+            viol(f"distance-wrong:{level}:{gname}:{how}",
+                 f"minimumDistanceTo = {d} but the certified gap lies in [{lo}, {hi}] ({tag}; FCL geometries {geoms})", "distance")
+
+
 # =========================================================================== one pair
-def run_pair(ctx, real, sa, sb, tag, lean_jobs, found):
+def run_pair(ctx, real, sa, sb, tag, lean_jobs, found, contracts=None):
     """all queries on one pair; appends (lines, callback) jobs for the Lean driver; returns nothing"""
     pair_json = {"A": spec_json(sa), "B": spec_json(sb), "tag": tag}
     SA, SB = exact_solid(sa), exact_solid(sb)
@@ -1298,9 +1547,9 @@ def run_pair(ctx, real, sa, sb, tag, lean_jobs, found):
         if report(ctx, key, what, dict(pair_json, kind="pair", query=query)):
             found.append(key)
 
-    if ctx.rng.random() < 0.35:
-        check_observation_contracts(ctx, real, tag, sa, thingA, regA, SA, lambda k, w: viol(k, w))
-        check_observation_contracts(ctx, real, tag, sb, thingB, regB, SB, lambda k, w: viol(k, w))
+    if contracts or (contracts is None and ctx.rng.random() < 0.35):
+        check_observation_contracts(ctx, real, tag, sa, thingA, regA, SA, lambda k, w: viol(k, w), lean_jobs)
+        check_observation_contracts(ctx, real, tag, sb, thingB, regB, SB, lambda k, w: viol(k, w), lean_jobs)
 
     ov = overlap_verdict(SA, SB)
     ctx.hist("oracle_overlap", ov.kind)
@@ -1383,37 +1632,20 @@ def run_pair(ctx, real, sa, sb, tag, lean_jobs, found):
             viol(f"object-intersects-wrong:{path}:" + ("says-disjoint" if not ans2 else "says-overlap") + misflag,
                  f"Object.intersects = {ans2} but the solids certainly {'overlap' if ov.kind == 'YES' else 'are disjoint'} ({tag})", "object_intersects")
         if isobjB:
-            d = float(thingA.minimumDistanceTo(thingB))
+            with DistTrace(real) as dt:
+                d = float(thingA.minimumDistanceTo(thingB))
             ctx.evaluations += 1
             fast = planarA and planarB and thingA.position.z == thingB.position.z
             pd = float(thingA._boundingPolygon.distance(thingB._boundingPolygon)) if fast else 0.0
-            ml = "mdist " + " ".join([b01(planarA), b01(planarB), frf(thingA.position.z), frf(thingB.position.z), frf(pd), frf(d if not fast else 0.0)])
-
-            def after_md(outs, d=d, fast=fast, ml=ml):
-                v, path = outs[0].split()
-                ctx.hist("distance_path", path)
-                if (path == "fast") != fast or (fast and Fr(v) != Fr(d)):
-                    ctx.broken("correspondence", "minimumDistanceTo model vs Object.minimumDistanceTo", f"{ml}: lean={outs[0]} python={d} fast={fast}")
-            lean_jobs.append(([ml], after_md))
-            if ov.kind == "YES" and d > DIST_TOL:   # a rounding-level positive value (1e-16) counts as zero
-                cvx = "convex" if regA.isConvex and regB.isConvex else "nonconvex"
-                touch = bool(real.fcl.collide(real.fcl.CollisionObject(*regA._fclData), real.fcl.CollisionObject(*regB._fclData)))
-                viol("distance-positive-on-overlap:" + ("planar" if fast else "fcl") + f":{cvx}:" + ("crossing" if touch else "nested"),
-                     f"minimumDistanceTo = {d} > 0 for overlapping solids ({tag}; {cvx}, surfaces {'cross' if touch else 'do not touch: one solid is nested in the other'})", "distance")
-            if ov.kind == "NO":
-                if any(isinstance(X, XHull) for X in SA + SB):
-                    lo2, hi2, dl = distance_bounds_hull(real, SA, SB, regA, regB)
-                else:
-                    lo2, hi2, dl = distance_bounds(SA, SB)
-                lean_jobs.append((dl, certificate_job(ctx, "distance bounds")))
-                lo, hi = math.sqrt(float(lo2)), math.sqrt(float(hi2))
-                ctx.hist("distance_bound_width", "tight" if hi - lo < 1e-6 else "loose")
-                if d <= 0 or d < lo - DIST_TOL or d > hi + DIST_TOL:
-                    how = "nonpositive" if d <= 0 else "under" if d < lo else "over"
-                    nconv = int(bool(regA.isConvex)) + int(bool(regB.isConvex))
-                    geom = ["bvh", "mixed-gjk", "convex-gjk"][nconv]   # FCL uses GJK as soon as one geometry is fcl.Convex
-                    viol("distance-wrong:" + ("planar" if fast else f"fcl:{geom}") + ":" + how,
-                         f"minimumDistanceTo = {d} but the certified gap lies in [{lo}, {hi}] ({tag})", "distance")
+            check_distance(ctx, real, "object", d, dt, fast, pd, (planarA, planarB, thingA.position.z, thingB.position.z),
+                           ov, SA, SB, regA, regB, tag, lean_jobs, viol)
+    if not (isobjA and isobjB):
+        # region-level minimum distance (plain / off-centre / composed regions: the `_fclDistanceData` fall-back branch)
+        with DistTrace(real) as dt:
+            d = float(regA.minimumDistanceTo(regB))
+        ctx.evaluations += 1
+        check_distance(ctx, real, "region", d, dt, False, 0.0, None, ov, SA, SB, regA, regB, tag, lean_jobs, viol,
+                       composed=(sa["mode"] == "region_union" or sb["mode"] == "region_union"))
 
     # ---------------- containment: is B inside A ?
     cv = contain_verdict(SA, SB)
@@ -1438,15 +1670,20 @@ def run_pair(ctx, real, sa, sb, tag, lean_jobs, found):
                     ctx.broken("correspondence", "five-pass containsObject model vs MeshVolumeRegion.containsObject",
                                f"{cl[0]}: lean={outs[0]} python={b01(cans)} calls={cnames} pair={json.dumps(pair_json)}")
             lean_jobs.append((cl, after_cont))
-        if ctx.rng.random() < 0.3:
+        if contracts or ctx.rng.random() < 0.3:
             if bool(thingB in container) != cans:
                 viol("in-operator-differs", "`obj in region` differs from region.containsObject(obj)", "contains")
         if cv.kind != "UNDECIDED":
             lean_jobs.append((cv.certs, certificate_job(ctx, "containment " + cv.kind)))
             if cans != (cv.kind == "YES"):
-                viol("containsObject-wrong:" + ("convex" if regA.isConvex else "nonconvex") + ":" + ("says-out" if not cans else "says-in")
-                     + (":misflagged-convex" if bool(regA.isConvex) and not is_convex_spec(sa) else ""),
-                     f"containsObject = {cans} but the object is certainly {'inside' if cv.kind == 'YES' else 'not inside'} ({tag})", "contains")
+                if sa["mode"] == "region_union" and sa["shape"].endswith("_touching") and not cans:
+                    # a composition of boxes that exactly touch keeps coincident internal faces (two bodies)
+                    key = "composed-touching-union:contains-says-out"
+                else:
+                    key = ("containsObject-wrong:" + ("convex" if regA.isConvex else "nonconvex") + ":" + ("says-out" if not cans else "says-in")
+                           + (":misflagged-convex" if bool(regA.isConvex) and not is_convex_spec(sa) else ""))
+                viol(key, f"containsObject = {cans} but the object is certainly {'inside' if cv.kind == 'YES' else 'not inside'} "
+                          f"({tag}; container {sa['shape']} / {sa['mode']}, bodies={regA._bodyCount})", "contains")
         else:
             ctx.hist("undecided", "contain")
 
@@ -1479,7 +1716,6 @@ def certificate_job(ctx, what):
 
 # =========================================================================== footprints
 def footprint_cases(ctx, real, found, lean_jobs):
-    shp = real.shapely
     n = ctx.budget(60, 1500)
     rng = ctx.rng
     for i in range(n):
@@ -1490,18 +1726,9 @@ def footprint_cases(ctx, real, found, lean_jobs):
             holes.append(((Fr(rng.randint(-4, 4), 4), Fr(rng.randint(-4, 4), 4)), (Fr(rng.choice([1, 2, 3]), 4), Fr(rng.choice([1, 2, 3]), 4))))
         origin = (Fr(rng.randint(-8, 8), 4), Fr(rng.randint(-8, 8), 4))
         rows = quat_matrix(quat)
-        u = tuple(tuple(rows[i][k] for i in range(3)) for k in range(3))
 
         def world(p):
             return vadd((origin[0], origin[1], Fr(0)), mat_vec(rows, (p[0], p[1], Fr(0))))
-
-        def rect(c, h):
-            return [world((c[0] + sx * h[0], c[1] + sy * h[1])) for sx, sy in ((1, 1), (-1, 1), (-1, -1), (1, -1))]
-        outer = XBox(world((0, 0)), u, (W / 2, L / 2, TALL))
-        hole_boxes = [XBox(world(c), u, (h[0], h[1], TALL)) for c, h in holes]
-        poly = shp.geometry.Polygon([(float(p[0]), float(p[1])) for p in rect((0, 0), (W / 2, L / 2))],
-                                    [[(float(p[0]), float(p[1])) for p in rect(c, h)] for c, h in holes])
-        F = real.rg.PolygonalFootprintRegion(poly)
         # object: near the outer boundary, near a hole, or anywhere
         so = rand_spec(rng, rng.choice(["generic", "planar", "compound"]), rng.choice(["object", "object_noscale"]))
         if so["shape"] == "box":
@@ -1517,54 +1744,82 @@ def footprint_cases(ctx, real, found, lean_jobs):
         else:
             p = world((Fr(rng.randint(-16, 16), 4), Fr(rng.randint(-16, 16), 4)))
         so["pos"] = [p[0], p[1], Fr(rng.randint(-8, 8), 4)]
-        SO = exact_solid(so)
-        obj, space = real.build(so)
-        ans = bool(F.containsObject(obj))
         rep = {"kind": "footprint", "quat": list(quat), "W": str(W), "L": str(L), "origin": [str(t) for t in origin],
                "holes": [[[str(t) for t in c], [str(t) for t in h]] for c, h in holes], "obj": spec_json(so)}
-        ctx.case(("foot", json.dumps(rep, sort_keys=True)))
         ctx.hist("footprint_where", where + (":holes" if holes else ":plain"))
-        # model
-        fo = [bool(obj._isConvex), bool(F.polygons.contains(obj._boundingPolygon)),
-              bool(F.polygons.contains(obj.occupiedSpace._boundingPolygonHull))]
-        fl = "foot " + " ".join(b01(t) for t in fo)
+        footprint_case(ctx, real, rep, found, lean_jobs)
 
-        def after_foot(outs, ans=ans, fl=fl):
-            a, ex = outs[0].split()
-            ctx.hist("footprint_exit", ex)
-            if (a == "1") != ans:
-                ctx.broken("correspondence", "footprint containsObject model vs PolygonalFootprintRegion.containsObject", f"{fl}: lean={outs[0]} python={b01(ans)}")
-        lean_jobs.append(([fl], after_foot))
-        if rng.random() < 0.3 and bool(obj in F) != ans:
-            if report(ctx, "in-operator-differs:footprint", "`obj in footprint` differs from containsObject", rep):
-                found.append("in")
-        # oracle: inside the outer prism and clear of every hole prism
-        inside = contain_verdict([outer], SO)
-        verdict, certs = "UNDECIDED", []
-        if inside.kind == "NO":
-            verdict, certs = "NO", inside.certs
-        elif inside.kind == "YES":
-            clear = [overlap_verdict([hb], SO) for hb in hole_boxes]
-            if all(c.kind == "NO" for c in clear):
-                verdict, certs = "YES", inside.certs + [ln for c in clear for ln in c.certs]
-            elif any(c.kind == "YES" for c in clear):
-                c = next(c for c in clear if c.kind == "YES")
-                verdict, certs = "NO", c.certs
-        ctx.hist("oracle_footprint", verdict)
-        if verdict != "UNDECIDED":
-            lean_jobs.append((certs, certificate_job(ctx, "footprint " + verdict)))
-            if ans != (verdict == "YES"):
-                key = "footprint-contains-wrong:" + ("convex" if fo[0] else "nonconvex") + ":" + ("says-out" if not ans else "says-in")
-                if report(ctx, key, f"PolygonalFootprintRegion.containsObject = {ans} but the object is certainly "
-                                      f"{'inside' if verdict == 'YES' else 'not inside'} the footprint", rep):
-                    found.append(key)
 
+def footprint_case(ctx, real, rep, found, lean_jobs, verbose=False):
+    """one footprint / object pair (from its replay dict): model correspondence, `in`, oracle"""
+    shp = real.shapely
+    quat = tuple(rep["quat"])
+    rows = quat_matrix(quat)
+    u = tuple(tuple(rows[i][k] for i in range(3)) for k in range(3))
+    origin = tuple(Fr(t) for t in rep["origin"])
+    W, L = Fr(rep["W"]), Fr(rep["L"])
+    holes = [((Fr(c[0]), Fr(c[1])), (Fr(h[0]), Fr(h[1]))) for c, h in rep["holes"]]
+
+    def world(p):
+        return vadd((origin[0], origin[1], Fr(0)), mat_vec(rows, (p[0], p[1], Fr(0))))
+
+    def rect(c, h):
+        return [world((c[0] + sx * h[0], c[1] + sy * h[1])) for sx, sy in ((1, 1), (-1, 1), (-1, -1), (1, -1))]
+    outer = XBox(world((0, 0)), u, (W / 2, L / 2, TALL))
+    hole_boxes = [XBox(world(c), u, (h[0], h[1], TALL)) for c, h in holes]
+    poly = shp.geometry.Polygon([(float(p[0]), float(p[1])) for p in rect((0, 0), (W / 2, L / 2))],
+                                [[(float(p[0]), float(p[1])) for p in rect(c, h)] for c, h in holes])
+    F = real.rg.PolygonalFootprintRegion(poly)
+    so = spec_from_json(rep["obj"])
+    SO = exact_solid(so)
+    obj, space = real.build(so)
+    ans = bool(F.containsObject(obj))
+    ctx.case(("foot", json.dumps(rep, sort_keys=True)))
+    if verbose:
+        print("footprint polygon:", poly.wkt)
+        print("object bounding polygon:", obj._boundingPolygon.wkt)
+        print("footprint.containsObject(obj) =", ans, " obj._isConvex =", bool(obj._isConvex))
+    # model
+    fo = [bool(obj._isConvex), bool(F.polygons.contains(obj._boundingPolygon)),
+          bool(F.polygons.contains(obj.occupiedSpace._boundingPolygonHull))]
+    fl = "foot " + " ".join(b01(t) for t in fo)
+
+    def after_foot(outs, ans=ans, fl=fl):
+        a, ex = outs[0].split()
+        ctx.hist("footprint_exit", ex)
+        if (a == "1") != ans:
+            ctx.broken("correspondence", "footprint containsObject model vs PolygonalFootprintRegion.containsObject", f"{fl}: lean={outs[0]} python={b01(ans)}")
+    lean_jobs.append(([fl], after_foot))
+    if (verbose or ctx.rng.random() < 0.3) and bool(obj in F) != ans:
+        if report(ctx, "in-operator-differs:footprint", "`obj in footprint` differs from containsObject", rep):
+            found.append("in")
+    # oracle: inside the outer prism and clear of every hole prism
+    inside = contain_verdict([outer], SO)
+    verdict, certs = "UNDECIDED", []
+    if inside.kind == "NO":
+        verdict, certs = "NO", inside.certs
+    elif inside.kind == "YES":
+        clear = [overlap_verdict([hb], SO) for hb in hole_boxes]
+        if all(c.kind == "NO" for c in clear):
+            verdict, certs = "YES", inside.certs + [ln for c in clear for ln in c.certs]
+        elif any(c.kind == "YES" for c in clear):
+            c = next(c for c in clear if c.kind == "YES")
+            verdict, certs = "NO", c.certs
+    ctx.hist("oracle_footprint", verdict)
+    if verbose:
+        print("oracle:", verdict)
+    if verdict != "UNDECIDED":
+        lean_jobs.append((certs, certificate_job(ctx, "footprint " + verdict)))
+        if ans != (verdict == "YES"):
+            key = "footprint-contains-wrong:" + ("convex" if fo[0] else "nonconvex") + ":" + ("says-out" if not ans else "says-in")
+            if report(ctx, key, f"PolygonalFootprintRegion.containsObject = {ans} but the object is certainly "
+                                  f"{'inside' if verdict == 'YES' else 'not inside'} the footprint", rep):
+                found.append(key)
 
 
 # =========================================================================== planar box vs PolygonalRegion
 def polyregion_cases(ctx, real, found, lean_jobs):
     """`Object.intersects(PolygonalRegion)`: the fast path (|dz| <= h/2 -> polygon test) and the default path."""
-    shp = real.shapely
     rng = ctx.rng
     for i in range(ctx.budget(50, 1200)):
         sa = rand_spec(rng, "planar", rng.choice(["object", "object_noscale"]))
@@ -1577,113 +1832,135 @@ def polyregion_cases(ctx, real, found, lean_jobs):
         dz = {"inside_z": sa["half"][2] * Fr(rng.randint(-3, 3), 4), "same_z": Fr(0),
               "edge_z": (sa["half"][2] + g) * rng.choice([1, -1])}[kind]
         zR = sa["pos"][2] + dz
-        B2 = exact_solid(pseudo)[0]        # the polygon's footprint over the object's own z-range
-        A = exact_solid(sa)
-        corners = [B2.point((sx, sy, 0)) for sx, sy in ((1, 1), (-1, 1), (-1, -1), (1, -1))]
-        P = real.rg.PolygonalRegion(polygon=shp.geometry.Polygon([(float(c[0]), float(c[1])) for c in corners]), z=float(zR))
-        obj, space = real.build(sa)
-        ans = bool(obj.intersects(P))
-        rep = {"kind": "polyregion", "A": spec_json(sa), "poly": spec_json(pseudo), "z": str(zR)}
-        ctx.case(("polyregion", json.dumps(rep, sort_keys=True)))
-        planar = bool(obj._isPlanarBox)
-        fast = planar and abs(obj.position.z - P.z) <= obj.height / 2
-        poly = bool(obj._boundingPolygon.intersects(P.polygons)) if fast else False
-        vol = ans if not fast else False
-        ol = "obj " + " ".join([b01(planar), "0", "0", "1", frf(obj.position.z), frf(P.z), frf(obj.height), "0/1", b01(poly), b01(vol)])
+        rep = {"kind": "polyregion", "A": spec_json(sa), "poly": spec_json(pseudo), "z": str(zR), "zkind": kind}
+        polyregion_case(ctx, real, rep, found, lean_jobs)
 
-        def after(outs, ans=ans, ol=ol, fast=fast):
-            a, ex = outs[0].split()
-            ctx.hist("object_exit", ex)
-            if (a == "1") != ans or (ex == "planarRegion") != fast:
-                ctx.broken("correspondence", "Object.intersects(PolygonalRegion) dispatch model", f"{ol}: lean={outs[0]} python={b01(ans)} fast={fast}")
-        lean_jobs.append(([ol], after))
-        # oracle: |dz| against h/2 with margin, then the footprints over a common z-range
-        hz = sa["half"][2]
-        verdict, certs = "UNDECIDED", []
-        if abs(dz) >= hz + MARGIN:
-            thin = XBox((B2.c[0], B2.c[1], zR), B2.u, (B2.h[0], B2.h[1], Fr(1, 10 ** 6)))
-            v = overlap_verdict(A, [thin], m=Fr(1, 10 ** 4))
-            if v.kind == "NO":
-                verdict, certs = "NO", v.certs
-        elif abs(dz) <= hz - MARGIN:
-            v = overlap_verdict(A, [B2])
-            if v.kind == "NO":
-                verdict, certs = "NO", v.certs
-            elif v.kind == "YES":
-                x = tuple(Fr(t) for t in v.certs[0].split()[-3:])
-                x = (x[0], x[1], zR)
-                if A[0].has(x) and B2.has((x[0], x[1], B2.c[2])):
-                    thick = XBox((B2.c[0], B2.c[1], zR), B2.u, (B2.h[0], B2.h[1], Fr(1)))
-                    verdict, certs = "YES", [f"has {A[0].tokens()} {vtok(x)}", f"has {thick.tokens()} {vtok(x)}"]
-        ctx.hist("oracle_polyregion", f"{kind}:{verdict}")
-        if verdict != "UNDECIDED":
-            lean_jobs.append((certs, certificate_job(ctx, "polyregion " + verdict)))
-            if ans != (verdict == "YES"):
-                key = "object-intersects-polygonalregion-wrong:" + ("fast" if fast else "default") + ":" + ("says-disjoint" if not ans else "says-overlap")
-                if report(ctx, key, f"Object.intersects(PolygonalRegion) = {ans} but they certainly "
-                                      f"{'intersect' if verdict == 'YES' else 'are disjoint'} (dz={float(dz)}, height={float(2 * hz)})", rep):
-                    found.append(key)
 
-# =========================================================================== the fall-back circumradius (DESIGN §7 row 23)
-def fallback_circumradius_witness(ctx, real, found, lean_jobs):
-    """Replays the Lean negation witness on the real code: two regions whose solid is the same cube, built with
-    centerMesh=False around opposite positions; and a ViewRegion that contains an object it 'does not intersect'."""
+def polyregion_case(ctx, real, rep, found, lean_jobs, verbose=False):
+    shp = real.shapely
+    sa, pseudo = spec_from_json(rep["A"]), spec_from_json(rep["poly"])
+    zR = Fr(rep["z"])
+    kind = rep.get("zkind", "?")
+    dz = zR - fr(sa["pos"][2])
+    B2 = exact_solid(pseudo)[0]        # the polygon's footprint over the object's own z-range
+    A = exact_solid(sa)
+    corners = [B2.point((sx, sy, 0)) for sx, sy in ((1, 1), (-1, 1), (-1, -1), (1, -1))]
+    P = real.rg.PolygonalRegion(polygon=shp.geometry.Polygon([(float(c[0]), float(c[1])) for c in corners]), z=float(zR))
+    obj, space = real.build(sa)
+    ans = bool(obj.intersects(P))
+    ctx.case(("polyregion", json.dumps(rep, sort_keys=True)))
+    planar = bool(obj._isPlanarBox)
+    fast = planar and abs(obj.position.z - P.z) <= obj.height / 2
+    poly = bool(obj._boundingPolygon.intersects(P.polygons)) if fast else False
+    vol = ans if not fast else False
+    if verbose:
+        print("object z =", obj.position.z, "height =", obj.height, "region z =", P.z, "planar box:", planar)
+        print("obj.intersects(PolygonalRegion) =", ans)
+    ol = "obj " + " ".join([b01(planar), "0", "0", "1", frf(obj.position.z), frf(P.z), frf(obj.height), "0/1", b01(poly), b01(vol)])
+
+    def after(outs, ans=ans, ol=ol, fast=fast):
+        a, ex = outs[0].split()
+        ctx.hist("object_exit", ex)
+        if (a == "1") != ans or (ex == "planarRegion") != fast:
+            ctx.broken("correspondence", "Object.intersects(PolygonalRegion) dispatch model", f"{ol}: lean={outs[0]} python={b01(ans)} fast={fast}")
+    lean_jobs.append(([ol], after))
+    # oracle: |dz| against h/2 with margin, then the footprints over a common z-range
+    hz = fr(sa["half"][2])
+    verdict, certs = "UNDECIDED", []
+    if abs(dz) >= hz + MARGIN:
+        thin = XBox((B2.c[0], B2.c[1], zR), B2.u, (B2.h[0], B2.h[1], Fr(1, 10 ** 6)))
+        v = overlap_verdict(A, [thin], m=Fr(1, 10 ** 4))
+        if v.kind == "NO":
+            verdict, certs = "NO", v.certs
+    elif abs(dz) <= hz - MARGIN:
+        v = overlap_verdict(A, [B2])
+        if v.kind == "NO":
+            verdict, certs = "NO", v.certs
+        elif v.kind == "YES":
+            x = tuple(Fr(t) for t in v.certs[0].split()[-3:])
+            x = (x[0], x[1], zR)
+            if A[0].has(x) and B2.has((x[0], x[1], B2.c[2])):
+                thick = XBox((B2.c[0], B2.c[1], zR), B2.u, (B2.h[0], B2.h[1], Fr(1)))
+                verdict, certs = "YES", [f"has {A[0].tokens()} {vtok(x)}", f"has {thick.tokens()} {vtok(x)}"]
+    ctx.hist("oracle_polyregion", f"{kind}:{verdict}")
+    if verbose:
+        print("oracle:", verdict)
+    if verdict != "UNDECIDED":
+        lean_jobs.append((certs, certificate_job(ctx, "polyregion " + verdict)))
+        if ans != (verdict == "YES"):
+            key = "object-intersects-polygonalregion-wrong:" + ("fast" if fast else "default") + ":" + ("says-disjoint" if not ans else "says-overlap")
+            if report(ctx, key, f"Object.intersects(PolygonalRegion) = {ans} but they certainly "
+                                  f"{'intersect' if verdict == 'YES' else 'are disjoint'} (dz={float(dz)}, height={float(2 * hz)})", rep):
+                found.append(key)
+
+
+# =========================================================================== fixed scenarios (regressions of repaired defects)
+def build_scenario(real, name):
+    """-> dict of the real answers of one fixed scenario (each was a defect of /repo, repaired by a `fix:` commit)"""
     tm = real.trimesh
-    mA = tm.creation.box((2, 2, 2)); mA.apply_translation((-5, 0, 0))
-    mB = tm.creation.box((2, 2, 2)); mB.apply_translation((5, 0, 0))
-    A = real.rg.MeshVolumeRegion(mA, position=(5, 0, 0), centerMesh=False)
-    B = real.rg.MeshVolumeRegion(mB, position=(-5, 0, 0), centerMesh=False)
-    ans = bool(A.intersects(B))
-    ctx.case(("fallback-witness", "cubes"))
-    rep = {"kind": "fallback_cubes"}
-    lean_jobs.append((["center", "circ 5 0 0 8 " + " ".join(f"{x} {y} {z}" for x in (1, -1) for y in (1, -1) for z in (1, -1))],
-                      lambda outs: ctx.hist("fallback_center_in_source", outs[0])))
-    if not ans:
-        if report(ctx, "fallback-circumradius-origin",
-                         "MeshVolumeRegion.intersects is False for two regions occupying the same cube [-1,1]^3 "
-                         "(centerMesh=False, positions (5,0,0)/(-5,0,0)): the fall-back _circumradius is measured about "
-                         "the origin but compared with the distance between the positions", rep):
-            found.append("fallback")
-    V = real.rg.ViewRegion(visibleDistance=10, viewAngles=(math.radians(40), math.radians(20)), position=real.vec.Vector(0, -5, 0))
-    o = real.ot.Object._with(position=real.vec.Vector(0, 4.5, 0), width=0.5, length=0.5, height=0.5)
-    inside = bool(V.containsObject(o))
-    hit = bool(o.intersects(V))
-    ctx.case(("fallback-witness", "view"))
-    if inside and not hit:
-        if report(ctx, "fallback-circumradius-origin:viewregion",
-                         "an object contained in a ViewRegion (containsObject=True) does not intersect it (intersects=False): "
-                         "PASS 1 uses the view cone's circumradius about the origin", {"kind": "fallback_view"}):
-            found.append("fallback-view")
+    if name == "offcentre_cubes":
+        # two regions occupying the same cube [-1,1]^3, written around the positions (5,0,0) / (-5,0,0)
+        mA = tm.creation.box((2, 2, 2)); mA.apply_translation((-5, 0, 0))
+        mB = tm.creation.box((2, 2, 2)); mB.apply_translation((5, 0, 0))
+        A = real.rg.MeshVolumeRegion(mA, position=(5, 0, 0), centerMesh=False)
+        B = real.rg.MeshVolumeRegion(mB, position=(-5, 0, 0), centerMesh=False)
+        return {"intersects": bool(A.intersects(B)), "want_intersects": True,
+                "circumradii": [float(A._circumradius), float(B._circumradius)], "bounds": A.mesh.bounds.tolist()}
+    if name == "view_region":
+        V = real.rg.ViewRegion(visibleDistance=10, viewAngles=(math.radians(40), math.radians(20)), position=real.vec.Vector(0, -5, 0))
+        o = real.ot.Object._with(position=real.vec.Vector(0, 4.5, 0), width=0.5, length=0.5, height=0.5)
+        inside = bool(V.containsObject(o))
+        return {"containsObject": inside, "intersects": bool(o.intersects(V)), "want_intersects": inside,
+                "circumradius": float(V._circumradius)}
+    raise KeyError(name)
 
 
+SCENARIOS = {
+    "offcentre_cubes": ("scenario:offcentre-cubes:intersects-says-disjoint",
+                        "MeshVolumeRegion.intersects is False for two regions occupying the same cube [-1,1]^3 "
+                        "(centerMesh=False, positions (5,0,0) / (-5,0,0)): `_circumradius` is not an upper bound about `position`"),
+    "view_region": ("scenario:view-region:contains-but-does-not-intersect",
+                    "an object contained in a ViewRegion (containsObject=True) does not intersect it (Object.intersects=False)"),
+}
 
-def touching_union_witness(ctx, real, found):
-    """A composed region made of two rotated boxes that exactly touch (an L): the mesh boolean leaves two bodies /
-    duplicated vertices, trimesh then (i) calls the L convex, so FCL tests its convex hull, and (ii) mis-counts ray
-    crossings at the coincident faces, so points deep inside are 'outside'.  Deterministic replays of two cases found
-    by the generator before it was restricted to overlapping compositions."""
-    sa = {"shape": "lshape_touching", "scale": Fr(3, 2), "quat": (4, 1, -2, 2), "pos": [Fr(-3, 4), Fr(-17, 8), Fr(5, 4)], "mode": "region_union"}
+
+def fixed_scenarios(ctx, real, found, lean_jobs):
+    for name, (key, what) in SCENARIOS.items():
+        r = build_scenario(real, name)
+        ctx.case(("scenario", name))
+        ctx.hist("scenario", name + (":ok" if r["intersects"] == r["want_intersects"] else ":WRONG"))
+        if r["intersects"] != r["want_intersects"]:
+            if report(ctx, key, what + f" (observed {r})", {"kind": "scenario", "name": name}):
+                found.append(key)
+    # the exact circumradius² of the off-centre cube through the fall-back expression as written in /repo
+    lean_jobs.append((["center", "circsq fallback 5 0 0 8 " + " ".join(f"{x} {y} {z}" for x in (6, 4) for y in (1, -1) for z in (1, -1))],
+                      lambda outs: (ctx.hist("fallback_center_in_source", outs[0]),
+                                    ctx.broken("correspondence", "fall-back circumradius² of the off-centre cube is not 3", str(outs))
+                                    if outs[1] != "3/1" and outs[1] != "3" else None)))
+
+
+TOUCHING = {
+    # a composed region made of two rotated boxes that exactly touch (an L): the mesh boolean leaves duplicated
+    # vertices along the reflex edge / two bodies with coincident faces
+    "notch": ({"shape": "lshape_touching", "scale": Fr(3, 2), "quat": (4, 1, -2, 2), "pos": [Fr(-3, 4), Fr(-17, 8), Fr(5, 4)], "mode": "region_union"},
+              None),
+    "inside": ({"shape": "lshape_touching", "scale": Fr(3, 2), "quat": (3, 1, 2, -1), "pos": [Fr(7, 4), Fr(11, 4), Fr(-21, 8)], "mode": "region_union"},
+               {"shape": "box", "half": [Fr(1, 8)] * 3, "quat": (1, 0, 0, 0), "pos": [Fr(541, 288), Fr(59, 18), Fr(-281, 144)], "mode": "object"}),
+}
+
+
+def touching_union_cases(ctx, real, found, lean_jobs):
+    """Two deterministic pairs found by the generator in round 1 (the generator also draws such compositions):
+    a box in the notch of the L (was: `intersects` answered for the convex hull, repaired by the hull-volume guard of
+    `isConvex`), and a small box deep inside one piece (trimesh's nearest-triangle signed distance on the coincident
+    internal faces: known finding)."""
+    sa, _ = TOUCHING["notch"]
     rows = quat_matrix(sa["quat"])
     notch = vadd(tuple(sa["pos"]), mat_vec(rows, vscale(Fr(3, 2), (Fr(1, 2), Fr(1, 2), Fr(0)))))
     sb = {"shape": "box", "half": [Fr(1, 8)] * 3, "quat": sa["quat"], "pos": list(notch), "mode": "object"}
-    A, B = real.build(sa)[1], real.build(sb)
-    ctx.case(("touching-union", "notch"))
-    if overlap_verdict(exact_solid(sa), exact_solid(sb)).kind == "NO" and bool(A.intersects(B[1])):
-        if report(ctx, "composed-touching-union:intersects-says-overlap",
-                         f"a union of two touching rotated BoxRegions (an L; isConvex={bool(A.isConvex)}, mesh volume {A.mesh.volume:.4f}, "
-                         f"hull volume {A.mesh.convex_hull.volume:.4f}) 'intersects' a box lying in its notch",
-                         {"kind": "pair", "A": spec_json(sa), "B": spec_json(sb), "tag": "touching-union", "query": "region_intersects"}):
-            found.append("touching-union")
-    sa2 = {"shape": "lshape_touching", "scale": Fr(3, 2), "quat": (3, 1, 2, -1), "pos": [Fr(7, 4), Fr(11, 4), Fr(-21, 8)], "mode": "region_union"}
-    sb2 = {"shape": "box", "half": [Fr(1, 8)] * 3, "quat": (1, 0, 0, 0), "pos": [Fr(541, 288), Fr(59, 18), Fr(-281, 144)], "mode": "object"}
-    A2, B2 = real.build(sa2)[1], real.build(sb2)
-    ctx.case(("touching-union", "inside"))
-    if contain_verdict(exact_solid(sa2), exact_solid(sb2)).kind == "YES" and not bool(A2.containsObject(B2[0])):
-        if report(ctx, "composed-touching-union:contains-says-out",
-                         f"a union of two touching rotated BoxRegions (bodies={A2._bodyCount}) does not 'contain' a small box lying "
-                         f"{abs(float(A2.distanceTo(B2[0].position))):.3f} inside it: containsPoint(position) is False",
-                         {"kind": "pair", "A": spec_json(sa2), "B": spec_json(sb2), "tag": "touching-union", "query": "contains"}):
-            found.append("touching-union-contains")
+    run_pair(ctx, real, sa, sb, "touching-union:notch", lean_jobs, found, contracts=True)
+    sa2, sb2 = TOUCHING["inside"]
+    run_pair(ctx, real, sa2, sb2, "touching-union:inside", lean_jobs, found, contracts=True)
 
 
 # =========================================================================== main
@@ -1707,13 +1984,15 @@ def run(ctx):
                          "scipy linprog / lsq_linear only propose witnesses (verified exactly afterwards)"]
     ctx.fingerprint(FINGERPRINTS)
     from translate import solid as tsolid
-    data = None
-    try:
-        data = tsolid.extract()
-        ctx.gen("Solid", tsolid.to_lean(data))
-    except TemplateMismatch as e:
+    # (T) every section of the anchored source is extracted independently; a section whose template no longer matches
+    # falls back to the pinned data of the source the model was written against (Gen/Solid.lean always builds, never
+    # stale) and the tie of that section then rests on the correspondence run at the escalated budget
+    data, terrs = tsolid.extract_tolerant()
+    ctx.gen("Solid", tsolid.to_lean(data))
+    for e in terrs:
         ctx.escalated.append(f"translator tie lost (solid): {e}")
-        ctx.notes.append(f"translator tie lost: {e}; relying on the correspondence at thorough budget")
+        ctx.notes.append(f"translator tie lost: {e}; that section uses pinned data and relies on the correspondence at thorough budget")
+    ctx.extra["translator_sections"] = {"extracted": len(tsolid.SECTIONS) - len(terrs), "pinned": len(terrs)}
     timing = {}
     t_ = time.time()
     pr = ctx.prove(THEOREMS, side_conditions=SIDE)
@@ -1740,8 +2019,8 @@ def run(ctx):
             nlines[0] += len(lines)
         del lean_jobs[:]
 
-    fallback_circumradius_witness(ctx, real, found, lean_jobs)
-    touching_union_witness(ctx, real, found)
+    fixed_scenarios(ctx, real, found, lean_jobs)
+    touching_union_cases(ctx, real, found, lean_jobs)
     n = ctx.budget(700, 14000)
     t0 = time.time()
     t_driver = 0.0
@@ -1758,6 +2037,10 @@ def run(ctx):
         if time.time() - t0 - t_driver > limit:
             ctx.notes.append(f"pair loop stopped by its time box after {i + 1} of {n} pairs")
             break
+        if found and ctx.escalated and i >= 60 and ctx.tier != "thorough":
+            # an escalated quick run is a search for a concrete failing input: stop once one has been found
+            ctx.notes.append(f"pair loop stopped after {i + 1} pairs: a concrete failing input was found ({found[0]})")
+            break
     timing["pairs_s"] = round(time.time() - t0 - t_driver, 1)
     t_ = time.time()
     footprint_cases(ctx, real, found, lean_jobs)
@@ -1772,10 +2055,50 @@ def run(ctx):
 
 
 # =========================================================================== replay
+class ReplayCtx:
+    """stand-in for Ctx during a replay: runs the same per-case code as the check, collects what it reports"""
+
+    def __init__(self, ctx):
+        self.ctx = ctx
+        self.rng = random.Random(0)
+        self.prop, self.tier, self.escalated = ctx.prop, "quick", []
+        self.evaluations = 0
+        self.reported, self.brokens = [], []
+
+    def hist(self, *a, **k):
+        pass
+
+    def case(self, *a, **k):
+        return True
+
+    def budget(self, q, t):
+        return q
+
+    def broken(self, kind, name, detail=""):
+        self.brokens.append((kind, name, str(detail)[:600]))
+
+    def violation(self, key, what, rep, no_input=False):
+        self.reported.append((key, what))
+        return True
+
+    def write_replay(self, *a, **k):
+        return None
+
+    def driver(self, lines):
+        return self.ctx.driver(lines)
+
+
 def replay(ctx, path):
+    """re-executes the recorded input on the real code (of $SCENIC_REPO); exit 1 if the violation reproduces, 0 if not"""
     body = json.load(open(path))
     rep = body.get("replay", body)
+    if "broken" in rep and "kind" not in rep:
+        print("this replay file records obligations that no longer check (no concrete input was found):")
+        print(json.dumps(rep, indent=1)[:3000])
+        return 0
     real = Real()
+    rc = ReplayCtx(ctx)
+    found, jobs = [], []
     kind = rep.get("kind")
     if kind == "pair":
         sa, sb = spec_from_json(rep["A"]), spec_from_json(rep["B"])
@@ -1783,56 +2106,63 @@ def replay(ctx, path):
         ta, ra = real.build(sa)
         tb, rb = real.build(sb)
         print("query:", rep.get("query"), "tag:", rep.get("tag"))
-        print("oracle overlap:", overlap_verdict(SA, SB).kind, " oracle B-inside-A:", contain_verdict(SA, SB).kind)
+        print("A:", json.dumps(rep["A"]))
+        print("B:", json.dumps(rep["B"]))
+        ov = overlap_verdict(SA, SB)
+        print("oracle overlap:", ov.kind, " oracle B-inside-A:", contain_verdict(SA, SB).kind)
         with Trace(real) as tr:
             print("regionA.intersects(regionB) =", bool(ra.intersects(rb)), " calls:", tr.names())
+        print("circumradii:", float(ra._circumradius), float(rb._circumradius), " isConvex:", bool(ra.isConvex), bool(rb.isConvex),
+              " bodies:", int(ra._bodyCount), int(rb._bodyCount))
         if not sa["mode"].startswith("region"):
             print("A.intersects(B) =", bool(ta.intersects(tb)))
             if not sb["mode"].startswith("region"):
                 print("A.minimumDistanceTo(B) =", float(ta.minimumDistanceTo(tb)))
-                lo2, hi2, _ = distance_bounds(SA, SB)
-                print("certified gap in", [math.sqrt(float(lo2)), math.sqrt(float(hi2))])
+        else:
+            print("regionA.minimumDistanceTo(regionB) =", float(ra.minimumDistanceTo(rb)))
+        if ov.kind == "NO" and not any(isinstance(X, XHull) for X in SA + SB):
+            lo2, hi2, _ = distance_bounds(SA, SB)
+            print("certified gap in", [math.sqrt(float(lo2)), math.sqrt(float(hi2))])
         if not sb["mode"].startswith("region"):
             print("regionA.containsObject(B) =", bool(ra.containsObject(tb)))
-    elif kind == "fallback_cubes":
-        tm = real.trimesh
-        mA = tm.creation.box((2, 2, 2)); mA.apply_translation((-5, 0, 0))
-        mB = tm.creation.box((2, 2, 2)); mB.apply_translation((5, 0, 0))
-        A = real.rg.MeshVolumeRegion(mA, position=(5, 0, 0), centerMesh=False)
-        B = real.rg.MeshVolumeRegion(mB, position=(-5, 0, 0), centerMesh=False)
-        print("bounds", A.mesh.bounds.tolist(), B.mesh.bounds.tolist(), "circumradii", A._circumradius, B._circumradius)
-        print("A.intersects(B) =", A.intersects(B), "(the two regions are the same cube)")
-    elif kind == "fallback_view":
-        V = real.rg.ViewRegion(visibleDistance=10, viewAngles=(math.radians(40), math.radians(20)), position=real.vec.Vector(0, -5, 0))
-        o = real.ot.Object._with(position=real.vec.Vector(0, 4.5, 0), width=0.5, length=0.5, height=0.5)
-        print("V.containsObject(o) =", V.containsObject(o), " o.intersects(V) =", o.intersects(V), " V._circumradius =", V._circumradius)
+        # the same checks as in the run (fresh objects: Object methods are cached)
+        run_pair(rc, real, sa, sb, rep.get("tag", "replay"), jobs, found, contracts=True)
+    elif kind == "scenario":
+        r = build_scenario(real, rep["name"])
+        print(rep["name"], "->", r)
+        if r["intersects"] != r["want_intersects"]:
+            rc.reported.append((SCENARIOS[rep["name"]][0], SCENARIOS[rep["name"]][1]))
+    elif kind in ("fallback_cubes", "fallback_view"):     # replay files written by earlier versions of the check
+        name = {"fallback_cubes": "offcentre_cubes", "fallback_view": "view_region"}[kind]
+        r = build_scenario(real, name)
+        print(name, "->", r)
+        if r["intersects"] != r["want_intersects"]:
+            rc.reported.append((SCENARIOS[name][0], SCENARIOS[name][1]))
     elif kind == "footprint":
-        quat = tuple(rep["quat"])
-        rows = quat_matrix(quat)
-        origin = tuple(Fr(t) for t in rep["origin"])
-        W, L = Fr(rep["W"]), Fr(rep["L"])
-
-        def world(p):
-            return vadd((origin[0], origin[1], Fr(0)), mat_vec(rows, (p[0], p[1], Fr(0))))
-
-        def rect(c, h):
-            return [world((c[0] + sx * h[0], c[1] + sy * h[1])) for sx, sy in ((1, 1), (-1, 1), (-1, -1), (1, -1))]
-        holes = [((Fr(c[0]), Fr(c[1])), (Fr(h[0]), Fr(h[1]))) for c, h in rep["holes"]]
-        poly = real.shapely.geometry.Polygon([(float(p[0]), float(p[1])) for p in rect((0, 0), (W / 2, L / 2))],
-                                             [[(float(p[0]), float(p[1])) for p in rect(c, h)] for c, h in holes])
-        F = real.rg.PolygonalFootprintRegion(poly)
-        obj, _ = real.build(spec_from_json(rep["obj"]))
-        print("footprint polygon:", poly.wkt)
-        print("object bounding polygon:", obj._boundingPolygon.wkt)
-        print("footprint.containsObject(obj) =", bool(F.containsObject(obj)), " obj._isConvex =", bool(obj._isConvex))
+        footprint_case(rc, real, rep, found, jobs, verbose=True)
     elif kind == "polyregion":
-        sa, pseudo = spec_from_json(rep["A"]), spec_from_json(rep["poly"])
-        B2 = exact_solid(pseudo)[0]
-        corners = [B2.point((sx, sy, 0)) for sx, sy in ((1, 1), (-1, 1), (-1, -1), (1, -1))]
-        P = real.rg.PolygonalRegion(polygon=real.shapely.geometry.Polygon([(float(c[0]), float(c[1])) for c in corners]), z=float(Fr(rep["z"])))
-        obj, _ = real.build(sa)
-        print("object z =", obj.position.z, "height =", obj.height, "region z =", P.z, "planar box:", bool(obj._isPlanarBox))
-        print("obj.intersects(PolygonalRegion) =", bool(obj.intersects(P)))
+        polyregion_case(rc, real, rep, found, jobs, verbose=True)
     else:
         print(json.dumps(rep, indent=1)[:3000])
+        return 0
+    # certificates / model lines of this one case through the Lean driver
+    try:
+        lines = [ln for job, _ in jobs for ln in job]
+        outs = ctx.driver(lines) if lines else []
+        k = 0
+        for job, cb in jobs:
+            cb(outs[k:k + len(job)])
+            k += len(job)
+    except Infra as e:
+        print("(Lean driver not available for the replay:", str(e)[:200], ")")
+    for kind_, name, detail in rc.brokens:
+        print(f"model/code disagreement: {kind_} {name}: {detail}")
+    want = body.get("key")
+    if rc.reported:
+        for key, what in rc.reported:
+            print(f"REPRODUCED [{key}]: {what}")
+        if want and want not in [k for k, _ in rc.reported]:
+            print(f"(the recorded key was [{want}])")
+        return 1
+    print("not reproduced: the property holds on this input" + (f" (recorded key [{want}])" if want else ""))
     return 0
